@@ -126,7 +126,23 @@ def run(ctx):
         n = ctx.n(200, 3000)
         for si in range(n):
             t0 = 10000 * r.randrange(1, 1000)
-            p = Proxy(False, t0)
+            prev_pos = None
+            rec_from = 0
+            if si >= 2 and r.random() < .3:
+                # this session is not the first one the proxy serves: an earlier viewer of the same factory came, moved the
+                # pointer, and left; the script of THIS session must replay to THIS session
+                p0 = Proxy(False, t0 - 50000)
+                prev_pos = (r.choice([0, 5, 640, 65535]), r.choice([0, 7, 480, 65535]))
+                p0.viewer_sends(b"RFB 003.008\n\x01\x01" + struct.pack("!BBHH", 5, r.choice([0, 1]), *prev_pos) + struct.pack("!BBxxI", 4, 1, 0x7a))
+                from twisted.python.failure import Failure
+                from twisted.internet.error import ConnectionDone
+                p0.srv.connectionLost(Failure(ConnectionDone()))
+                rec_from = len(p0.rec)
+                p = Proxy(False, t0, fac=p0.fac)
+                p.rec = p0.rec
+                ctx.count("sessions_after_an_earlier_viewer")
+            else:
+                p = Proxy(False, t0)
             p.viewer_sends(b"RFB 003.008\n\x01\x01")
             evs = []
             t = t0
@@ -162,6 +178,8 @@ def run(ctx):
                     evs.append(("key", ks, down, t))
                 else:
                     x, y, m = r.choice([0, 5, 640, 65535]), r.choice([0, 7, 480, 65535]), r.choice([0, 0, 0, 1, 4, 5])
+                    if prev_pos is not None and not any(e[0] == "ptr" for e in evs) and r.random() < .7:
+                        x, y = prev_pos          # the viewer's pointer happens to be where the earlier viewer left it
                     msg = struct.pack("!BBHH", 5, m, x, y)
                     evs.append(("ptr", x, y, m, t))
                 p.set_time(t)
@@ -173,7 +191,7 @@ def run(ctx):
                     ctx.count("messages_split_in_two")
                 else:
                     p.viewer_sends(msg)
-            script = "".join(p.rec)
+            script = "".join(p.rec[rec_from:])
             via_stdin = r.random() < .3 and not any(e[0] == "key" and e[1] == 13 for e in evs)
             ctx.count("replayed_via_stdin" if via_stdin else "replayed_from_file")
             unrec = any(e[0] == "key" and e[1] > 0x10FFFF for e in evs)
